@@ -409,6 +409,8 @@ class Builder(object):
             f_t = simp(self.t(fn))
         if ctext in TRANSPARENT_CALLS and len(args) >= 1 and not (self.strict_casts and (kws or len(args) > 1)):
             return self._unsimp(args[0])     # a plain conversion; under strict_casts a dtype=/copy= argument keeps it visible as a cast
+        if ctext == 'range' and len(args) == 2 and not kws and args[0] == num(0):
+            args = args[1:]                # range(0, n) is range(n)
         if ctext in SQRT_CALLS and len(args) == 1:
             return ppow(self._unsimp(args[0]), Fraction(1, 2))
         if ctext == 'pow' and len(args) == 2:
